@@ -82,6 +82,23 @@ Proof.
     reflexivity.
 Qed.
 
+Lemma mon_b64f : forall c dst src, wf_call (B64F dst src) = true ->
+  mon_call (B64F dst src) (run_call c (B64F dst src)) = true.
+Proof.
+  intros c dst src W. cbn [wf_call] in W. cbn [mon_call run_call]. rewrite W. cbn [andb].
+  rewrite base64_url_encode_is_encode_into, encode_into_spec.
+  rewrite encode_length_nat. fold (len src).
+  set (n := enc_len (len src)).
+  assert (Hn : 0 <= n) by (apply enc_len_nonneg, len_nonneg).
+  unfold len at 1.
+  destruct (Z.leb_spec n (Z.of_nat (length dst))) as [L|L].
+  - replace (Z.to_nat n <=? length dst)%nat with true by (symmetry; apply Nat.leb_le; lia).
+    cbn [lift bind]. rewrite encode_is_rfc4648 by exact W.
+    apply eqb_bytes_refl.
+  - replace (Z.to_nat n <=? length dst)%nat with false by (symmetry; apply Nat.leb_gt; lia).
+    reflexivity.
+Qed.
+
 Lemma in_u32_range : forall k, in_u32 k = true -> 0 <= k <= 4294967295.
 Proof. intros k H. unfold in_u32 in H. apply andb_true_iff in H. destruct H as [A B]. apply Z.leb_le in A, B. change MAXU32 with 4294967295 in B. lia. Qed.
 
@@ -218,8 +235,9 @@ Qed.
 Lemma mon_ok_model : forall c k, cfg_ok c = true -> wf_call k = true -> mon_ok (model_obs c k) = true.
 Proof.
   intros c k Hc W. unfold mon_ok, model_obs. cbn [fst snd].
-  destruct k as [d src|n sb eb data|f|w f|ty|ch p|a|kd sd d a|p k s so e|p k s so e].
+  destruct k as [d src|dst src|n sb eb data|f|w f|ty|ch p|a|kd sd d a|p k s so e|p k s so e|w sh].
   - apply mon_b64; assumption.
+  - apply mon_b64f; assumption.
   - apply mon_extract. exact W.
   - apply mon_flags. exact W.
   - apply mon_flagone. exact W.
@@ -229,6 +247,7 @@ Proof.
   - apply mon_waex; assumption.
   - cbn [mon_call run_call]. apply mon_ed. exact W.
   - cbn [mon_call run_call]. apply mon_ed. exact W.
+  - reflexivity.
 Qed.
 
 Lemma first_false_all : forall (A : Type) (f : A -> bool) l i,
